@@ -228,6 +228,8 @@ def _tools():
     # a long lazy stream of inner iterables, each a closeable object that keeps its records / a plain iterator
     T["chain_from_iterable_pages"] = (1, 10, lambda S, n: A.chain.from_iterable(S[0]), "iter", {"pages": "class"})
     T["chain_from_iterable_sync_pages"] = (1, 10, lambda S, n: A.chain.from_iterable(S[0]), "iter", {"pages": "sync"})
+    # a long, lazily produced SYNCHRONOUS outer stream of freshly built inner lists
+    T["chain_from_iterable_lazy_sync_outer"] = (0, 8, None, "chain_lazy_outer", {})
     T["compress"] = (1, 0, lambda S, n: A.compress(S[0], [i % 2 for i in range(n)]), "iter", {})
     # the selectors are a long, lazily produced SYNCHRONOUS stream of records of their own (and the data is one)
     T["compress_lazy_sync_selectors"] = (1, 1, None, "compress_lazy", {"data": "async"})
@@ -407,6 +409,19 @@ def run_tool(case, stats):
                     del item
                     census.sample("after group item")
                 del group
+        elif kind == "chain_lazy_outer":
+            def pages():
+                for i in range(0, n, 4):
+                    page = [W(j) for j in range(i, min(n, i + 4))]
+                    for record in page:
+                        census.track(record)
+                    yield page
+                    del page, record
+
+            async for item in A.chain.from_iterable(pages()):
+                produced["n"] += 1
+                del item
+                census.sample("after an item of a page")
         elif kind == "compress_lazy":
             def records(tag, truth):
                 for i in range(n):
